@@ -51,17 +51,23 @@ int _vnadata_set_simple_format(vnadata_internal_t *vdip,
     vfdp_new->vfd_format = format;
 
     /*
-     * Install the new vector.
+     * Install the new vector and update the format string.  If that
+     * fails, keep the old vector so that vector and string still
+     * describe the same format.
      */
-    free((void *)vdip->vdi_format_vector);
-    vdip->vdi_format_vector = vfdp_new;
-    vdip->vdi_format_count = 1;
+    {
+	vnadata_format_descriptor_t *vfdp_old = vdip->vdi_format_vector;
+	int old_count = vdip->vdi_format_count;
 
-    /*
-     * Update the format string.
-     */
-    if (_vnadata_update_format_string(vdip) == -1) {
-	goto out;
+	vdip->vdi_format_vector = vfdp_new;
+	vdip->vdi_format_count = 1;
+	if (_vnadata_update_format_string(vdip) == -1) {
+	    vdip->vdi_format_vector = vfdp_old;
+	    vdip->vdi_format_count = old_count;
+	    free((void *)vfdp_new);
+	    goto out;
+	}
+	free((void *)vfdp_old);
     }
     rc = 0;
 
